@@ -60,7 +60,9 @@ class ModuleVisitor(extensions.ModuleVisitorExt):
         except KeyError:
             # Classes inside functions are ignored.
             return
-        assert isinstance(cls, model.Class)
+        if not isinstance(cls, model.Class):
+            # The name designates something else by now.
+            return
         getDeprecated(cls, node.decorator_list)
 
     def depart_FunctionDef(self, node:ast.FunctionDef) -> None:
@@ -73,7 +75,10 @@ class ModuleVisitor(extensions.ModuleVisitorExt):
         except KeyError:
             # Inner functions are ignored.
             return
-        assert isinstance(func, (model.Function, model.Attribute))
+        if not isinstance(func, (model.Function, model.Attribute)):
+            # The name designates something else, e.g. a nested class 
+            # that a property setter is named after.
+            return
         getDeprecated(func, node.decorator_list)
 
 _incremental_Version_signature = inspect.signature(Version)
